@@ -227,7 +227,66 @@ impl DomGen {
         } else {
             None
         };
+        // one time in five (binary, which resolves spellings): 2-5 instances of ONE class where some carry BOTH the
+        // canonical and another accepted spelling of a property (different values: the canonical one is the one that
+        // is written), some only the other spelling, some only the canonical one, some neither. What the writer learns
+        // about a spelling on the first instance it meets must not decide what it does for the later ones.
+        let spellings: Option<(usize, usize)> = if self.fmt == Fmt::Binary && self.aliases && self.known_classes && self.known_props && twins.is_none() && r.chance(1, 5) {
+            let class = *r.pick(&["Part", "Sound", "Humanoid", "MeshPart", "TextLabel", "Model", "Decal", "SpawnLocation"]);
+            let k = 2 + r.below(4);
+            let first = spec.nodes.len();
+            let parent = r.below(first);
+            for i in 0..k {
+                let p = if r.chance(2, 3) { parent } else { r.below(spec.nodes.len()) };
+                spec.add(p, class, &format!("sp{}", i));
+            }
+            Some((first, k))
+        } else {
+            None
+        };
         self.fill_props(r, &mut spec);
+        if let Some((first, k)) = spellings {
+            let db = dbwalk::db();
+            let class = spec.nodes[first].class.clone();
+            // (canonical name, other spelling, type) with both spellings carrying the same value type
+            let set = settable_props(&class, self.fmt, true);
+            let mut pairs: Vec<(String, String, VariantType)> = vec![];
+            for (name, ty, back) in &set {
+                let canon = match dbwalk::resolve(db, &class, name) {
+                    Some(rs) => rs.canonical.name.to_string(),
+                    None => continue,
+                };
+                if &canon != name && !matches!(ty, VariantType::Ref | VariantType::UniqueId | VariantType::SharedString) {
+                    if let Some((_, cty, cback)) = set.iter().find(|(n, _, _)| *n == canon) {
+                        if cty == ty && cback == back {
+                            pairs.push((canon, name.clone(), *ty));
+                        }
+                    }
+                }
+            }
+            pairs.sort_by(|a, b| (&a.0, &a.1).cmp(&(&b.0, &b.1)));
+            if !pairs.is_empty() {
+                let (canon, other, ty) = r.pick(&pairs).clone();
+                let back = dbwalk::travel(db, &class, &canon).map(|t| t.back_name.clone());
+                for (j, id) in (first..first + k).enumerate() {
+                    spec.nodes[id].props.retain(|(n, _)| back.is_none() || back != dbwalk::travel(db, &class, n).map(|t| t.back_name.clone()));
+                    // the first of the group always carries both; the rest: both / other only / canonical only / neither
+                    let pattern = if j == 0 { 0 } else { r.below(5) };
+                    // (the other spelling is pushed first: the oracle keeps the last value it sees for a logical
+                    // property, and the canonical spelling is the one the writer reads first)
+                    if matches!(pattern, 0 | 1 | 4) {
+                        if let Some(v) = self.vgen.gen(r, ty) {
+                            spec.nodes[id].props.push((other.clone(), PV::V(v)));
+                        }
+                    }
+                    if matches!(pattern, 0 | 2) {
+                        if let Some(v) = self.vgen.gen(r, ty) {
+                            spec.nodes[id].props.push((canon.clone(), PV::V(v)));
+                        }
+                    }
+                }
+            }
+        }
         if let Some((first, k, prop, kind)) = twins {
             let n_nodes = spec.nodes.len();
             for id in first..first + k {
